@@ -18,9 +18,14 @@
 //! **File I/O of the reader** goes through `tokio::fs` (blocking pool): the reader actor enters a
 //! current-thread runtime with `max_blocking_threads(1)` and, whenever a poll returns `Pending`,
 //! *flushes* the blocking pool (submits a marker job and waits for it — the pool is FIFO with one
-//! thread, so every earlier I/O job has completed and delivered its wake) before it parks. A park
-//! is therefore always a logical wait for a writer, I/O completion is never mistaken for a missing
-//! wake-up, and runs stay deterministic.
+//! thread, so every earlier I/O job has completed and delivered its wake); if a wake is recorded it
+//! re-polls without any scheduling step (`ActorCtx::take_wake`), otherwise it parks. A park is
+//! therefore always a logical wait for a writer, I/O completion is never mistaken for a missing
+//! wake-up. Because tokio reports a read as `Ready` or as `Pending`+wake depending on how fast the
+//! blocking thread is, the reader additionally *gates* the blocking thread during each poll (`IoGate`):
+//! an I/O job issued by a poll cannot complete before that poll returns, so every I/O stage costs
+//! exactly one `Pending` + re-poll and the sequence of yield points is a pure function of the case
+//! (checked with `VF_CHAN_DETCHECK=1`, which executes every case twice and compares traces).
 //!
 //! **Oracle** (history recorded under the baton): every delivered batch was pushed (push started),
 //! is delivered at most once, with its rows intact; an empty batch is never delivered; SPSC:
@@ -187,6 +192,25 @@ thread_local! {
         .expect("tokio runtime");
 }
 
+/// Occupies the single blocking-pool thread until dropped (jobs submitted meanwhile queue up behind it).
+struct IoGate(Option<std::sync::mpsc::Sender<()>>);
+
+impl IoGate {
+    fn close(h: &tokio::runtime::Handle) -> IoGate {
+        let (tx, rx) = std::sync::mpsc::channel::<()>();
+        let _ = h.spawn_blocking(move || {
+            let _ = rx.recv(); // returns when the sender is dropped
+        });
+        IoGate(Some(tx))
+    }
+}
+
+impl Drop for IoGate {
+    fn drop(&mut self) {
+        self.0.take();
+    }
+}
+
 /// wait until every blocking job submitted so far (file I/O of the reader) has completed
 fn flush_io(h: &tokio::runtime::Handle) {
     let (tx, rx) = std::sync::mpsc::channel::<()>();
@@ -303,12 +327,25 @@ fn execute(case: &Case) -> Result<Outcome16, String> {
                 }
                 ctx.yield_now("reader.next()");
                 let item = loop {
+                    // a stale wake flag (I/O completion that raced with an earlier poll) must not matter
+                    let _ = ctx.take_wake();
                     let mut fut = reader.next();
-                    match ctx.poll(std::pin::Pin::new(&mut fut)) {
+                    // hold the (single) blocking thread while polling: an I/O job issued by this poll
+                    // can then never complete before the poll returns, so every I/O stage costs
+                    // exactly one `Pending` + re-poll — never a timing-dependent `Ready`
+                    let gate = IoGate::close(&rt_handle);
+                    let polled = ctx.poll(std::pin::Pin::new(&mut fut));
+                    drop(gate);
+                    match polled {
                         Poll::Ready(x) => break x,
                         Poll::Pending => {
-                            // all outstanding file I/O completes (and wakes us) before we decide to park
+                            // all outstanding file I/O completes (and wakes us) before we decide to park;
+                            // an I/O completion is not a scheduling step: whether tokio reported the read
+                            // as Pending-then-woken or as Ready depends on timing only
                             flush_io(&rt_handle);
+                            if ctx.take_wake() {
+                                continue;
+                            }
                             ctx.park();
                         }
                     }
@@ -455,11 +492,32 @@ fn fmt_history(h: &[Ev]) -> String {
     s
 }
 
+/// Determinism guard: a violation is only reported if an independent second execution of the same
+/// case gives the same verdict class; with `VF_CHAN_DETCHECK` set every case is executed twice and
+/// any difference in trace / decisions / history is a harness error (exit 2).
 fn judge(case: &Case) -> CaseResult {
+    let r = judge_once(case, std::env::var_os("VF_CHAN_DETCHECK").is_some());
+    if r.is_violation() {
+        let again = judge_once(case, false);
+        if !again.is_violation() || again.labels.first() != r.labels.first() {
+            return CaseResult::inconclusive("a violation did not reproduce on immediate re-execution (harness non-determinism)").label("non-reproducible");
+        }
+    }
+    r
+}
+
+fn judge_once(case: &Case, detcheck: bool) -> CaseResult {
     let out = match execute(case) {
         Ok(o) => o,
         Err(m) => return CaseResult::inconclusive(format!("set-up failed: {m}")),
     };
+    if detcheck {
+        if let Ok(b) = execute(case) {
+            if b.report.trace != out.report.trace || b.report.decisions != out.report.decisions || format!("{:?}", b.history) != format!("{:?}", out.history) {
+                panic!("harness non-determinism: two executions of the same case differ\nA: {}{}\nB: {}{}", out.report.describe(200), fmt_history(&out.history), b.report.describe(200), fmt_history(&b.history));
+            }
+        }
+    }
     let rep = &out.report;
     let ctx_text = |n: usize| format!("(quota={:?} bytes, files created={})\n{}{}", out.quota_bytes, out.files_created, rep.describe(n), fmt_history(&out.history));
     if let Some(p) = rep.panics.first() {
@@ -548,7 +606,7 @@ impl Property for C16 {
             .boxed()
     }
     fn budget(&self, tier: Tier) -> Budget {
-        Budget::new(tier.pick(12_000, 600_000), tier.pick(8, 16)).min_nontrivial(tier.pick(300, 20_000)).case_timeout(60).shrink(3000, 120)
+        Budget::new(tier.pick(12_000, 300_000), tier.pick(8, 16)).min_nontrivial(tier.pick(300, 10_000)).case_timeout(60).shrink(3000, 120)
     }
     fn rule(&self) -> String {
         "generated (spsc|mpsc with 1-3 writer handles, push scripts with 0/1/20/100-row batches, rotation threshold, reader drains or leaves early, \
